@@ -265,23 +265,32 @@ def askCanStart : RowK → Bool
   | .canStart => true
   | _ => false
 
+/-- `if (*out_pos == out_size && *out_pos != out_start) coder->out_was_filled = true;` -/
+def markFilled (s1 : State) (cap0 : Nat) : State :=
+  if s1.outCap = 0 && cap0 != 0 then { s1 with outWasFilled := true } else s1
+
+/-- `coder->pending_error = LZMA_PROG_ERROR` when a worker has reported an error (not fail-fast). -/
+def flagPend (s2 : State) : State :=
+  if s2.threadError != OK then { s2 with pend := .flag } else s2
+
+/-- The tail of the loop body: leave (can start / no waiting allowed / queue empty / output readable / stalled) or wait. -/
+def rowLeaveOrWait (s3 : State) (k : RowK) (wait : Bool) : State :=
+  if askCanStart k && canStartNow s3 then { s3 with pc := .rowDone k OK true }
+  else if !wait then { s3 with pc := .rowDone k OK false }
+  else if s3.queue.isEmpty then { s3 with pc := .rowDone k OK false }
+  else if headReadable s3 then { s3 with pc := .rowDone k OK false }
+  else if stalled s3 then { s3 with pc := .rowDone k OK false }
+  else { s3 with pc := .rowWait k wait, mwoken := false }
+
 /-- One iteration of the outer loop of read_output_and_wait, executed while holding coder->mutex; ends either by leaving the
     loop (`rowDone`) or by waiting on coder->cond. -/
 def rowIterate (s0 : State) (k : RowK) (wait : Bool) : State :=
-  let cap0 := s0.outCap
-  let (s1, r) := readLoop (s0.queue.length + 1) s0
-  if r != OK then { s1 with pc := .rowDone k r false }
+  let res := readLoop (s0.queue.length + 1) s0
+  if res.2 != OK then { res.1 with pc := .rowDone k res.2 false }
   else
-    let s2 := if s1.outCap = 0 && cap0 != 0 then { s1 with outWasFilled := true } else s1
+    let s2 := markFilled res.1 s0.outCap
     if s2.threadError != OK && s2.cfg.failFast then { s2 with pc := .rowDone k s2.threadError false }
-    else
-      let s3 := if s2.threadError != OK then { s2 with pend := .flag } else s2
-      if askCanStart k && canStartNow s3 then { s3 with pc := .rowDone k OK true }
-      else if !wait then { s3 with pc := .rowDone k OK false }
-      else if s3.queue.isEmpty then { s3 with pc := .rowDone k OK false }
-      else if headReadable s3 then { s3 with pc := .rowDone k OK false }
-      else if stalled s3 then { s3 with pc := .rowDone k OK false }
-      else { s3 with pc := .rowWait k wait, mwoken := false }
+    else rowLeaveOrWait (flagPend s2) k wait
 
 /-- The decision a worker takes at `next_loop_unlocked` while holding thr->mutex. -/
 def workerDecide (w : Worker) : Worker :=
@@ -310,7 +319,7 @@ def step (s : State) : Label → Option State
     else none
   | .ret =>
     match s.pc with
-    | .ret r => some { s with pc := .idle, returned := if fatal r then some r else none }
+    | .ret r => some { s with pc := .idle, returned := if fatal r then some r else s.returned }
     | _ => none
   | .endCall =>
     if s.pc = .idle then some { s with pc := .endSet 0 .final } else none
